@@ -66,6 +66,21 @@ fn f12(deps: &(impl A + ?Sized)) -> u8 {
     deps.a()
 }
 
+#[entrait(F13)]
+fn f13<D>(deps: &D) -> u8
+where
+    D: A + ?Sized,
+{
+    deps.a()
+}
+#[entrait(F14)]
+fn f14<D: A>(deps: &D) -> u8
+where
+    D: ?Sized + B,
+{
+    deps.a()
+}
+
 // ---- concrete forms
 #[entrait(G01)]
 fn g01(deps: &App) -> u8 {
